@@ -299,6 +299,7 @@ def parts(tier):
                     bound='%d cases' % len(sc4))
     sc5 = [{'twin': t, 'api': a, 'decode': False, 'clse': c, 'nother': n, 'family': f} for t in ('sync', 'async') for a in ('shell', 'exec_out', 'streaming_shell') for c in ('after-ack', 'eager')
            for n in (3, 1) for f in ('small', 'mirror')]
+    sc5 += [{'twin': t, 'api': a, 'decode': False, 'clse': c, 'nother': n, 'family': 'small', 'rounds': 2} for t in ('sync', 'async') for a in ('shell', 'exec_out') for c in ('after-ack', 'eager') for n in (2, 3)]
     inter = Part('interleaved-streams', sc5, run_interleaved, {'dev-order': None}, what='a suspended stream whose packets are parked and later delivered from the store: each delivered WRTE must still be acknowledged once',
                  bound='%d cases x all wire orders' % len(sc5))
     sc6 = [{'twin': t, 'k': k, 'clse': c, 'family': f} for t in ('sync', 'async') for k in (1, 2, 5) for c in ('after-ack', 'eager') for f in ('small', 'extreme')]
